@@ -267,8 +267,11 @@ def operator_callees(en):
     """From eval_node's dispatch: operator variant -> set of local evaluator functions called in its arm
     (un-inlined view, resolved callees, path conditions)."""
     # helpers of the algorithm module are inlined (deep sites), the evaluators of the operator module are not
-    eng = terms.Engine(en.prog, inline=True, hooks=E.Hooks([E.ALG], opaque_names=[E.ALG + "eval_node", E.ALG + "compute_attractor_states",
-                                                                                  E.ALG + "compute_steady_states"]))
+    # (a function of the operator module that itself takes an operator kind is a dispatcher, not an evaluator: it is inlined as well)
+    dispatchers = [f.path for f in en.prog.lib_fns() if f.path.startswith(E.OPS)
+                   and any(("operator_enums::" + k) in str(t) for t in f.param_tys for k in ("UnaryOp", "BinaryOp", "HybridOp"))]
+    eng = terms.Engine(en.prog, inline=True, hooks=E.Hooks([E.ALG], inline_names=dispatchers,
+                                                           opaque_names=[E.ALG + "eval_node", E.ALG + "compute_attractor_states", E.ALG + "compute_steady_states"]))
     summ = eng.summary(en.fn)
     out = {}
     fns = [(en.fn, summ)]
@@ -277,7 +280,7 @@ def operator_callees(en):
             if s.kind != "call" or not isinstance(s.callee, str):
                 continue
             tgt = en.prog.resolve_local(fn.crate, s.callee)
-            if tgt is None or not tgt.path.startswith(E.OPS):
+            if tgt is None or not tgt.path.startswith(E.OPS) or tgt.path in dispatchers:
                 continue
             # innermost match condition on an operator enum
             op = None
